@@ -55,6 +55,9 @@ type Input struct {
 	Lookups []Lookup        `json:"lookups"`
 	Cred    *credgen.Spec   `json:"cred,omitempty"`
 	InModel bool            `json:"in_model"` // the claim is also evaluated in the Coq model
+	// ClaimError: the credential does not say which type it has (no credentialSubject.type and a
+	// top-level type array that is not a pair containing VerifiableCredential): no claim may be built
+	ClaimError bool `json:"claim_error,omitempty"`
 	// IRIError: another term with the same @id, whose scoped context is not a map, sorts first:
 	// a lookup by IRI and claim building must both fail
 	IRIError bool `json:"iri_error,omitempty"`
@@ -279,6 +282,10 @@ func (g *gen) run(in *Input) (out outcome) {
 			if co.class != "err" {
 				fail("c17-malformed-accepted", "claim building accepted a malformed attribute", nil)
 			}
+		case in.Kind == "assign" && in.ClaimError:
+			if co.class != "err" {
+				fail("c17-claim-error", "the credential names no single type next to VerifiableCredential but a claim was built", nil)
+			}
 		case in.Kind == "assign" && in.IRIError:
 			if co.class != "err" {
 				fail("c17-claim-error", "the first term identified by the type IRI has an array-shaped scoped context but a claim was built", nil)
@@ -436,6 +443,26 @@ func (g *gen) assignments() {
 						}
 					}
 					g.ins = append(g.ins, in)
+					// where the credential says its type: credentialSubject.type absent / present x the
+					// top-level pair in both orders; three types / no VerifiableCredential: no claim
+					if n%6 == 0 {
+						vcT := "VerifiableCredential"
+						shapes := []credgen.Spec{
+							{Schema: s, Subject: did, NoSubjectType: true, TopTypes: []string{vcT, s.TypeName}},
+							{Schema: s, Subject: did, NoSubjectType: true, TopTypes: []string{s.TypeName, vcT}},
+							{Schema: s, TopTypes: []string{s.TypeName, vcT}},
+							{Schema: s, Subject: did, NoSubjectType: true, TopTypes: []string{s.TypeName, vcT, "VerifiablePresentation"}},
+							{Schema: s, Subject: did, NoSubjectType: true, TopTypes: []string{s.TypeName, "VerifiablePresentation"}},
+						}
+						for k := range shapes {
+							sp2 := shapes[k]
+							if k >= 3 && n%24 != 0 {
+								continue
+							}
+							g.ins = append(g.ins, &Input{Kind: kind, Asg: asg, Schema: s, Lookups: lookupsFor(s, fields[:5], false), Cred: &sp2,
+								InModel: n%12 == 0 || g.cfg.Thorough(), ClaimError: k >= 3})
+						}
+					}
 					// more credentials of the same type: other field values, an absent field
 					extra := 0
 					if g.cfg.Thorough() {
@@ -1033,7 +1060,7 @@ func (g *gen) writeShards() error {
 func Run(cfg *common.Config) (*common.Report, error) {
 	rep := common.NewReport("C17")
 	rep.Correspondence = "Claim.Run.lmismatches / hmismatches / amismatches / fmismatches: get_field_slot_index, parser_parse_claim and the facade (Claim/Model.v) vs json.Parser.GetFieldSlotIndex / ParseClaim and processor.Processor; to_core_claim vs W3CCredential.ToCoreClaim on a credential of each type; and the model's own lookup against the model's own claim on the recorded field encodings"
-	rep.Rule = "ALL 6^4 = 1296 assignments of the four data slots to {none, price, count, name, info.insured, info.since}; per assignment: lookups of the five fields, an unnamed field and the empty string by type name and by type IRI, an unknown type, the processor facade with and without parser, and the claim of a credential of that type (subject id / expiration varied); plus reordered and repeated parts, absent designated fields, 32 malformed attributes (a second '=' in a part in every position, a lost '&', empty key, doubled / trailing '='), non-string attribute, no attribute, array-shaped scoped context, sibling types sorting before/after (30 repetitions), 13 bad schema documents, stub components behind the facade (results and the options object passed through, field by field); ParseClaim through the facade vs the parser called directly for every option field and three sets of merklizer options (a loader that alone resolves the contexts, + custom hasher, + safe mode off); for every 9th assignment a claim is first built with a second document loader that serves another schema document (merklized / the assignment read backwards) at the same URL and type. distinct = distinct (schema, lookups, credential) inputs; all are non-trivial (each reaches the attribute parser or one of the documented error points)."
+	rep.Rule = "ALL 6^4 = 1296 assignments of the four data slots to {none, price, count, name, info.insured, info.since}; per assignment: lookups of the five fields, an unnamed field and the empty string by type name and by type IRI, an unknown type, the processor facade with and without parser, and the claim of a credential of that type (subject id / expiration varied; for every 6th assignment also credentials without credentialSubject.type whose top-level type pair is written in both orders, and with three types / without VerifiableCredential: no claim); plus reordered and repeated parts, absent designated fields, 32 malformed attributes (a second '=' in a part in every position, a lost '&', empty key, doubled / trailing '='), non-string attribute, no attribute, array-shaped scoped context, sibling types sorting before/after (30 repetitions), 13 bad schema documents, stub components behind the facade (results and the options object passed through, field by field); ParseClaim through the facade vs the parser called directly for every option field and three sets of merklizer options (a loader that alone resolves the contexts, + custom hasher, + safe mode off); for every 9th assignment a claim is first built with a second document loader that serves another schema document (merklized / the assignment read backwards) at the same URL and type. distinct = distinct (schema, lookups, credential) inputs; all are non-trivial (each reaches the attribute parser or one of the documented error points)."
 	g := &gen{cfg: cfg, rep: rep, env: credgen.NewEnv(), env2: credgen.NewEnv()}
 	merklize.SetDocumentLoader(g.env.Loader)
 	if cfg.Replay != "" {
